@@ -230,7 +230,7 @@ def run(ctx):
     h = Hits(ctx).install()
     rng = ctx.rng
     try:
-        n = ctx.pick(1000, 20000)
+        n = ctx.per_shard(1000, 20000)
         for i in range(n):
             ws = [''] if i % 3 == 0 else WS
             j = gen_value(ctx, rng, rng.randint(0, 6), ws)
